@@ -35,6 +35,11 @@ The violation must be shown through the public behaviour named in the property (
   - where the call comes from: a worker thread instead of the main thread (what "main-thread" means then), several threads taking turns on one DAG, a sync DAG called from inside a running event loop or from a coroutine's `to_thread`, an AsyncDAG awaited in several event loops one after the other (`asyncio.run` twice), in a loop with a custom default executor, with `uvloop`-like policies absent; calls made at interpreter shutdown / from `atexit`; `contextvars` seen by node functions;
   - lifecycle of objects: deepcopy / pickle (dill) / `copy.copy` of a DAG, an AsyncDAG, an executor or a decorated function BEFORE and AFTER calls, setup, config reloads or failures, and using the copy next to the original; DAG objects created in a loop (hundreds) and dropped; the same describing function decorated twice; a DAG re-built from the same source in the same process; module reload;
   - cleanup: what is left behind after a call that raised, was cancelled (`task.cancel()` on an awaited AsyncDAG, `asyncio.wait_for` timeout), or was interrupted (KeyboardInterrupt raised in a node of the main thread): pools, tasks, tracing state (`is_describing_dag` / the description lock / module-level registries), half-written cache files - and whether the NEXT call of the same or another DAG behaves.""",
+    10: """This is the TENTH round for this property. This round is about the REPAIRS that were made to the library recently: run `git -C <your worktree> log --oneline -25 -- tawazi` and read the commits whose message starts with "fix:" (`git show <commit>`); each of them repaired a defect and NONE of them came with a regression test, so the test suite does not protect them. Make a SMALL and SUBTLE change (ideally <= 6 changed lines) that RE-INTRODUCES the defect one of these commits repaired - or a close relative of it - in a way that breaks YOUR property:
+  - not a plain revert of the commit: re-introduce the defect only for a special case (one resource, one flavour - AsyncDAG vs DAG, executor vs plain call -, one alias form, negative / zero values, reused functions `f<<1>>`, nested DAGs, the second call, after a config reload, after a deep copy ...), or through a different line than the one the fix touched (a refactoring that bypasses the repaired code path, a helper that duplicates the old logic, a cache in front of the repaired function, a changed default / argument order at a call site of the repaired function);
+  - or break the repair's own assumptions (the fix sorts / copies / converts something: feed it the case where sorting / copying / converting is not enough);
+  - if none of the repairs is related to your property, fall back to any change of the kinds asked for in earlier rounds that is not in the list below.
+Say in notes.md which repair (commit hash) your change undermines.""",
 }
 
 
